@@ -62,9 +62,10 @@ ASSUME \A n \in 1..4 :
              g == [i \in 1..n |-> Q(2 * i - 3, 2)]
              dotpg == SumV([j \in 1..n |-> Mul(p[j], g[j])])
          IN [i \in 1..n |-> E(gdef[i])] = [i \in 1..n |-> Mul(p[i], Sub(g[i], dotpg))]
-(* Sigmoid: s(1 - s) with e^{-x} replaced by a literal; Tanh: 1 - tanh^2 syntactically *)
+(* Sigmoid: s(1 - s) with e^{-x} replaced by a literal; Tanh: syntactically 1 / cosh^2, which is the statement's        *)
+(* 1 - tanh^2 (cosh^2 - sinh^2 = 1) in the form that keeps its relative accuracy where tanh x rounds to 1 (Val!DFn)      *)
 ASSUME LET gdef == GradDef(<<In("x", <<1>>, TRUE)>>, <<Ins("tanhact", NoPar, <<1>>)>>, 2, 1)
-       IN gdef[1] = Sub(One, Mul(Fn("tanh", Sym("x", 1)), Fn("tanh", Sym("x", 1))))
+       IN gdef[1] = Inv(Mul(Fn("cosh", Sym("x", 1)), Fn("cosh", Sym("x", 1))))
 ASSUME LET gdef == GradDef(<<In("x", <<1>>, TRUE)>>, <<Ins("sigmoid", NoPar, <<1>>)>>, 2, 1)
            RECURSIVE F(_)
            F(v) == CASE v.k = "a" /\ v.f = "exp" -> QI(3)
